@@ -301,15 +301,16 @@ type Pipe struct {
 	recvFailed chan struct{}
 	rfOnce     sync.Once
 
-	mu    sync.Mutex
-	mode  SendMode
-	peer  *Pipe
-	owner string
-	sent  [][]byte
-	nsend int
-	opts  map[string]interface{}
-	byLib bool
-	quiet bool
+	mu      sync.Mutex
+	mode    SendMode
+	peer    *Pipe
+	owner   string
+	sent    [][]byte
+	nsend   int
+	opts    map[string]interface{}
+	byLib   bool
+	blocked bool
+	quiet   bool
 }
 
 // NewPipe creates a pipe. It is not connected to anything until it is
@@ -379,6 +380,10 @@ func (p *Pipe) Send(m *mangos.Message) error {
 	default:
 	}
 	if mode == Gated {
+		p.mu.Lock()
+		p.blocked = true
+		p.mu.Unlock()
+		defer func() { p.mu.Lock(); p.blocked = false; p.mu.Unlock() }()
 		select {
 		case err := <-p.gate:
 			if err != nil {
@@ -513,3 +518,6 @@ func (p *Pipe) GetOption(name string) (interface{}, error) {
 // WaitRecvFailed blocks until a library Recv on the pipe has returned an
 // error (used to order a peer drop before the end of proto.AddPipe).
 func (p *Pipe) WaitRecvFailed() { <-p.recvFailed }
+
+// Blocked reports whether a gated Send is waiting for Release / Fail.
+func (p *Pipe) Blocked() bool { p.mu.Lock(); defer p.mu.Unlock(); return p.blocked }
